@@ -1158,58 +1158,172 @@ def gen_clockseq(rng, k, rt=False):
             seq.append([ch, rng.choice(['1', '2', '4', '1/2'])])
         elif ch == 'beats':
             pos += rng.randint(1, 64)
-            seq.append(['beats', str(pos if rt else Fraction(rng.randint(0, 64), 8))])   # RT: forward only (no waiting)
+            seq.append(['beats', str(pos if rt else Fraction(rng.randint(0, 32), 8))])   # RT: forward only (no waiting)
         else:
             seq.append(['bpb', rng.choice(['3', '4', '5', '7/2'])])
         for _ in range(rng.randint(1, 3)):
             seq.append(['yield', str(Fraction(rng.choice(['0', '1/4', '1/2', '1', '3/4'])) * scale)])
             seq.append(['send', rng.choice(['0', '1/4', '1/8', None, '-1/4', '1'])])
-    return {'tempo': rng.choice(['1', '2', '4', '1/2']), 'seq': seq, 'start': str(Fraction(rng.choice(['1/4', '1/2', '1'])) * scale),
-            'ints': rng.random() < 0.4}
+    # other routines PENDING on the same clock while it is changed (keys never coincide with the changer's)
+    bys = [{'offset': str(Fraction(o_, 16) * scale), 'delta': str(Fraction(1, 2) * scale), 'n': rng.randint(3, 6)}
+           for o_ in rng.sample([1, 3], rng.choice([1, 2, 2]))]
+    # NRT: start late enough that a forward jump of the beats (tasks become due in the past) never reaches negative seconds
+    return {'tempo': rng.choice(['1', '2', '4', '1/2']), 'seq': seq,
+            'start': str(Fraction(rng.choice(['1/4', '1/2', '1'])) * scale + (0 if rt else 40)),
+            'ints': rng.random() < 0.4, 'bystanders': bys}
 
 
 def clockseq_expected(pr, o, mode):
+    """Joint simulation (harness oracle, exact): the routine that changes the clock AND the routines pending on the same clock.  Every
+    task is due at a BEAT; its seconds are that beat under the tempo map in force when it runs; a map change re-times everything pending."""
     F = Fraction
     if 'fatal' in o:
         return [('probe crashed', o['fatal'][-300:], '')]
-    if not o.get('done'):
+    if not o.get('done') or not o.get('all_done', True):
         return None
     bad = []
     tr = list(o['trace'])
-    t, bs, bb = F(pr['tempo']), F(o['clock_base']), F(0)
+    st = {'t': F(pr['tempo']), 'bs': F(o['clock_base']), 'bb': F(0)}
+
+    def s2b(s_):
+        return (s_ - st['bs']) * st['t'] + st['bb']
+
+    def b2s(b_):
+        return (b_ - st['bb']) / st['t'] + st['bs']
     first = tr.pop(0)
-    T, key = F(first[1]), F(first[2])
-    if key != (T - bs) * t + bb:
-        bad.append(('beats at the first resumption', str(key), str((T - bs) * t + bb)))
+    T0, key0 = F(first[1]), F(first[2])
+    if key0 != s2b(T0):
+        bad.append(('beats at the first resumption', str(key0), str(s2b(T0))))
+    seq = list(pr['seq'])
     done = []
-    for st in pr['seq']:
-        k = st[0]
-        done.append(st)
-        if k in ('tempo', 'etempo'):
-            cur = (T - bs) * t + bb
-            bb, bs, t = cur, T, F(st[1])
-        elif k == 'beats':
-            bs, bb = T, F(st[1])
-        elif k == 'yield':
-            key += F(st[1])
-            T = (key - bb) / t + bs
+    bys = pr.get('bystanders', [])
+    obs_b = [list(x) for x in o.get('bystanders', [[] for _ in bys])]
+    exp_b = [[] for _ in bys]
+
+    def run_main(T, key):
+        """execute the changer's steps up to its next yield; -> new key or None when it ended"""
+        while seq:
+            stp = seq.pop(0)
+            done.append(stp)
+            k = stp[0]
+            if k in ('tempo', 'etempo'):
+                cur = s2b(T)
+                st.update(bb=cur, bs=T, t=F(stp[1]))
+            elif k == 'beats':
+                st.update(bs=T, bb=F(stp[1]))
+            elif k == 'yield':
+                return key + F(stp[1])
+            elif k == 'send':
+                got = tr.pop(0)
+                lat = stp[1]
+                imm = lat is None or F(lat) < 0
+                due = T + (F(0) if imm else F(lat))
+                if mode == 'nrt':
+                    if F(got[2]) != due or int(got[3]) != int(due * (1 << 32)):
+                        bad.append(('bundle sent with latency %s at logical time %s after %s: score time / timetag' % (lat, T, json.dumps(done[-5:-1])),
+                                    '%s / %s' % (got[2], got[3]), '%s / %s' % (due, int(due * (1 << 32)))))
+                else:
+                    exp = 1 if imm else int(due * (1 << 32)) + int(o['osc_offset'])
+                    if int(got[3]) != exp:
+                        bad.append(('bundle sent with latency %s at logical time %s after %s: timetag' % (lat, T, json.dumps(done[-5:-1])), got[3], str(exp)))
+        return None
+    pend = {}                                   # rid -> key ; rid 0 = the changer, j+1 = bystander j
+    left = {}
+    k0 = run_main(T0, key0)
+    if k0 is not None:
+        pend[0] = k0
+    for j, sp in enumerate(bys):
+        exp_b[j].append((T0, key0))
+        pend[j + 1] = key0 + F(sp['offset'])
+        left[j + 1] = sp['n']
+    guard = 0
+    while pend and not bad and guard < 1000:
+        guard += 1
+        dues = sorted((b2s(kv), rid) for rid, kv in pend.items())
+        if len(dues) > 1 and dues[0][0] == dues[1][0]:
+            return []                           # a tie between two routines: order not specified here, not compared
+        T, rid = dues[0]
+        key = pend.pop(rid)
+        if rid == 0:
             got = tr.pop(0)
             if F(got[1]) != T or F(got[2]) != key:
-                bad.append(('after %s: logical seconds / beats at the next resumption' % json.dumps(done[-6:]), '%s / %s' % (got[1], got[2]), '%s / %s' % (T, key)))
+                bad.append(('after %s: logical seconds / beats of the changing routine at its next resumption' % json.dumps(done[-6:]),
+                            '%s / %s' % (got[1], got[2]), '%s / %s' % (T, key)))
                 break
-        elif k == 'send':
-            got = tr.pop(0)
-            lat = st[1]
-            imm = lat is None or F(lat) < 0
-            due = T + (F(0) if imm else F(lat))
-            if mode == 'nrt':
-                if F(got[2]) != due or int(got[3]) != int(due * (1 << 32)):
-                    bad.append(('bundle sent with latency %s at logical time %s after %s: score time / timetag' % (lat, T, json.dumps(done[-5:-1])),
-                                '%s / %s' % (got[2], got[3]), '%s / %s' % (due, int(due * (1 << 32)))))
-                    break
-            else:
-                exp = 1 if imm else int(due * (1 << 32)) + int(o['osc_offset'])
-                if int(got[3]) != exp:
-                    bad.append(('bundle sent with latency %s at logical time %s after %s: timetag' % (lat, T, json.dumps(done[-5:-1])), got[3], str(exp)))
-                    break
+            nk = run_main(T, key)
+            if nk is not None:
+                pend[0] = nk
+        else:
+            exp_b[rid - 1].append((T, key))
+            if left[rid] > 0:
+                left[rid] -= 1
+                pend[rid] = key + F(bys[rid - 1]['delta'])
+    for j in range(len(bys)):
+        got = [(F(a), F(b)) for a, b in obs_b[j]]
+        if got != exp_b[j] and not bad:
+            i = next((i for i, (x, y) in enumerate(zip(got, exp_b[j])) if x != y), min(len(got), len(exp_b[j])))
+            bad.append(('routine PENDING on the clock (delta %s beats) while another routine does %s: (seconds, beats) of its resumptions, first '
+                        'difference at index %d' % (bys[j]['delta'], json.dumps([x for x in pr['seq'] if x[0] in CLOCK_CHANGES]), i),
+                        str([(str(a), str(b)) for a, b in got[max(0, i - 1):i + 2]]), str([(str(a), str(b)) for a, b in exp_b[j][max(0, i - 1):i + 2]])))
     return bad
+
+
+# ------------------------------------------------------------------ round 8: AppClock tasks in RT; main-thread sends racing a slow clock task
+def gen_appclock(rng, k, rt=True):
+    """RT AppClock (the drifting Scheduler): several plain functions queued at once -- some due in the SAME tick, one far later -- and a
+    routine, all sending with a latency.  AppClock promises no exact logical time, but the time a task runs with must be ITS OWN scheduled
+    time: within the bracket of its scheduling, never later than the clock reading it sees, and its bundle is stamped that time + L."""
+    base = [Fraction(1, 64), Fraction(1, 32), Fraction(3, 64), Fraction(1, 16)]
+    delays = [str(rng.choice(base)) for _ in range(rng.randint(2, 4))]
+    delays += [delays[0]] * rng.choice([0, 1, 2])                 # same tick
+    delays.append(str(Fraction(rng.choice([1, 2, 3]), 2)))        # one entry pending far in the future
+    rng.shuffle(delays)
+    return {'delays': delays, 'lat': rng.choice(['0', '1/8', '1/4', '1']), 'routine_steps': rng.randint(2, 4),
+            'routine_delta': str(Fraction(rng.choice([1, 2, 3]), 128))}
+
+
+def appclock_expected(pr, o, mode):
+    F = Fraction
+    if 'fatal' in o:
+        return [('probe crashed', o['fatal'][-300:], '')]
+    bad = []
+    sched = {i: (F(lo), F(hi)) for i, lo, hi in o['tasks_sched']}
+    off = int(o['osc_offset'])
+    lat = F(pr['lat'])
+    for t in o['tasks']:
+        T, now = F(t['T']), F(t['now'])
+        if int(t['tag']) - off != (T + lat) * (1 << 32):
+            bad.append(('%s: timetag - offset' % t['name'], str(int(t['tag']) - off), '(its logical time %s + latency %s) * 2^32' % (T, lat)))
+        if T > now:
+            bad.append(('%s on AppClock: the logical time it runs with' % t['name'], '%s, LATER than the clock reading %s it sees (the time of another queued task)' % (T, now), '<= %s' % now))
+        if t['name'].startswith('function'):
+            i = int(t['name'].split()[1])
+            lo, hi = sched[i]
+            if not (lo <= T <= hi):
+                bad.append(('%s on AppClock (scheduled with delay %s): the logical time it runs with' % (t['name'], pr['delays'][i]), str(T),
+                            'its own scheduled time, within [%s, %s]' % (lo, hi)))
+        elif t['lower'] is not None and T < F(t['lower']):
+            bad.append(('%s on AppClock: the logical time it runs with' % t['name'], str(T), '>= %s (re-scheduled after that reading + its delta)' % t['lower']))
+        if bad:
+            break
+    return bad
+
+
+def gen_race(rng, k, rt=True):
+    """slow plain functions on a clock thread (S, T, A by turns) while the main thread keeps sending without holding the library lock"""
+    return {'host': ['S', 'T', 'A'][k % 3], 'tempo': rng.choice(['1', '2']), 'ntasks': rng.randint(3, 5), 'gap': str(Fraction(1, 32)),
+            'busy_ms': rng.choice([8, 12, 16]), 'lat': rng.choice(['0', '1/4', '1/8'])}
+
+
+def race_expected(pr, o, mode):
+    F = Fraction
+    if 'fatal' in o:
+        return [('probe crashed', o['fatal'][-300:], '')]
+    off = int(o['osc_offset'])
+    lat = F(pr['lat'])
+    for before, tag, after in o['sends']:
+        used = F(int(tag) - off, 1 << 32) - lat
+        if not (F(before) <= used <= F(after)):
+            return [('bundle sent from the MAIN thread with latency %s while %s runs slow tasks: the time it is stamped from (timetag - latency)' % (pr['lat'], {'S': 'SystemClock', 'T': 'a TempoClock', 'A': 'AppClock'}[pr['host']]),
+                     str(used), 'the current time: between the clock readings %s (before the call) and %s (after it)' % (before, after))]
+    return []
